@@ -79,6 +79,9 @@ func (rc *RunCtx) Fail(prop, oracle, class, format string, args ...any) {
 	if rc.Sc.CrashTo != "" {
 		props = append(append([]string(nil), props...), strings.Split(rc.Sc.CrashTo, ",")...)
 	}
+	for a := range rc.Sc.Also {
+		props = append(append([]string(nil), props...), a)
+	}
 	for _, p := range props {
 		if p == prop {
 			if len(rc.viol) < 20 {
